@@ -23,6 +23,9 @@
 #include "aes_cbc.h"
 #include "aes_keyexp.h"
 #include "isal_crypto_api.h"
+#include "tramp.h"
+#include "guard.h"
+#include "sens.h"
 
 typedef struct isal_gcm_key_data KD;
 typedef struct isal_gcm_context_data CD;
@@ -171,11 +174,12 @@ static void show_ctx(const CD *c)
 static uint8_t *abuf(size_t n, unsigned off)
 {
         uint8_t *p;
+        if (guard_mode) return guard_alloc(n, off);   /* flush against an inaccessible page */
         if (posix_memalign((void **) &p, 64, n + 128)) exit(2);
         memset(p, 0xEE, n + 128);
         return p + off;
 }
-#define AFREE(p, off) free((p) - (off))
+#define AFREE(p, off) do { if (guard_mode) guard_free(p); else free((p) - (off)); } while (0)
 
 static uint32_t pick_len(rng_t *r, uint32_t maxlen, uint32_t unit)
 {
@@ -240,6 +244,10 @@ int main(int argc, char **argv)
         if (!fo || !fr) return 2;
         rng_t R;
         rng_seed(&R, seed);
+        tramp_setup();
+        guard_setup();
+        guard_out = fr;
+        sens_out = fr;
         long done = 0;
         const char *famtag = fam;
         if (!strcmp(what, "gcm") && !strncmp(fam, "pub", 3)) {
@@ -262,6 +270,7 @@ int main(int argc, char **argv)
                 for (G = gfams; G->name && strcmp(G->name, fam); G++) ;
                 if (!G->name) return 2;
                 int is_pub = !strncmp(fam, "pub", 3);
+                if (G->nt) guard_align = 64;
                 KD *kd;
                 CD *cd;
                 if (posix_memalign((void **) &kd, 64, sizeof(KD)) || posix_memalign((void **) &cd, 64, sizeof(CD))) return 2;
@@ -280,9 +289,17 @@ int main(int argc, char **argv)
                                 xs_bytes(seed + 77, key, 32); xs_bytes(seed + 78, iv, 12); xs_bytes(seed + 79, pt, 48);
                                 for (int b = 0; b < 2; b++) {
                                         uint64_t al = (1ull << 29) + rng_below(&R, 100) - (b ? 0 : 30);
+                                        int bits = b ? 256 : 128;
                                         memset(kd, 0, sizeof(KD));
-                                        if (is_pub) { if (b) isal_aes_gcm_pre_256(key, kd); else isal_aes_gcm_pre_128(key, kd); }
-                                        else { uint8_t t[240]; if (b) _aes_keyexp_256_sse(key, kd->expanded_keys, t); else _aes_keyexp_128_sse(key, kd->expanded_keys, t); G->pre[b](kd); }
+                                        if (is_pub) {
+                                uint8_t tmpe[240], tmpd[240];
+                                TCALL(b ? (void *) _aes_keyexp_256_sse : (void *) _aes_keyexp_128_sse, A_(key), A_(tmpe), A_(tmpd));
+                                TCALL(b ? (void *) isal_aes_gcm_pre_256 : (void *) isal_aes_gcm_pre_128, A_(key), A_(kd));
+                                sens_set_gcm(key, bits, kd, tmpd);
+                                sens_add_hkeys(kd);
+                                SCAN("gcm_pre");
+                        }
+                                        else { uint8_t t[240]; if (b) _aes_keyexp_256_sse(key, kd->expanded_keys, t); else _aes_keyexp_128_sse(key, kd->expanded_keys, t); TCALL(G->pre[b], A_(kd)); sens_add_hkeys(kd); SCAN("gcm_precomp"); }
                                         G->enc[b](kd, cd, ct, pt, 48, iv, base, al, tag, 16);
                                         EVP_CIPHER_CTX *c = EVP_CIPHER_CTX_new();
                                         int l;
@@ -306,11 +323,18 @@ int main(int argc, char **argv)
                         uint8_t key[32];
                         xs_bytes(kseed, key, bits / 8);
                         memset(kd, 0xC3, sizeof(KD));
-                        if (is_pub) { if (b) isal_aes_gcm_pre_256(key, kd); else isal_aes_gcm_pre_128(key, kd); }
+                        if (is_pub) {
+                                uint8_t tmpe[240], tmpd[240];
+                                TCALL(b ? (void *) _aes_keyexp_256_sse : (void *) _aes_keyexp_128_sse, A_(key), A_(tmpe), A_(tmpd));
+                                TCALL(b ? (void *) isal_aes_gcm_pre_256 : (void *) isal_aes_gcm_pre_128, A_(key), A_(kd));
+                                sens_set_gcm(key, bits, kd, tmpd);
+                                sens_add_hkeys(kd);
+                                SCAN("gcm_pre");
+                        }
                         else {
                                 uint8_t tmpd[240];
-                                if (b) _aes_keyexp_256_sse(key, kd->expanded_keys, tmpd); else _aes_keyexp_128_sse(key, kd->expanded_keys, tmpd);
-                                G->pre[b](kd);
+                                TCALL(b ? (void *) _aes_keyexp_256_sse : (void *) _aes_keyexp_128_sse, A_(key), A_(kd->expanded_keys), A_(tmpd)); sens_set_gcm(key, bits, kd, tmpd);
+                                TCALL(G->pre[b], A_(kd)); sens_add_hkeys(kd); SCAN("gcm_precomp");
                         }
                         fprintf(fo, "GK %d %llu\n", bits, (unsigned long long) kseed);
                         fprintf(fr, "ok\n");
@@ -344,9 +368,9 @@ int main(int argc, char **argv)
                                         xs_bytes(dseed, in, len);
                                         uint8_t *ref = malloc(len + 16), *inc = malloc(len + 16);
                                         memcpy(inc, in, len);
-                                        fprintf(fo, "GO %c %u %llu %llu %u %llu %d\n", dec ? 'd' : 'e', len, (unsigned long long) dseed,
+                                        GUARD_OP("gcm one-shot"); fprintf(fo, "GO %c %u %llu %llu %u %llu %d\n", dec ? 'd' : 'e', len, (unsigned long long) dseed,
                                                 (unsigned long long) ivseed, aadlen, (unsigned long long) aadseed, taglen);
-                                        (dec ? G->dec[b] : G->enc[b])(kd, cd, out, in, len, iv, aad, aadlen, tag, taglen);
+                                        TCALL(dec ? (void *) G->dec[b] : (void *) G->enc[b], A_(kd), A_(cd), A_(out), A_(in), len, A_(iv), A_(aad), aadlen, A_(tag), taglen); SCAN("gcm_oneshot");
                                         fprintf(fr, "out=");
                                         show_out(out, len);
                                         fprintf(fr, " tag=");
@@ -355,15 +379,15 @@ int main(int argc, char **argv)
                                         ossl_gcm(dec, bits, key, iv, aad, aadlen, inc, len, ref, otag);
                                         if (memcmp(ref, out, len)) monitor("C02-output-differs-from-openssl", len);
                                         if (memcmp(otag, tag, taglen)) monitor("C02-tag-differs-from-openssl", len);
-                                        if (!inplace && out[len] != 0xEE) monitor("C08-write-past-output", len);
+                                        if (!inplace && (guard_mode != 1 && out[len] != 0xEE)) monitor("C08-write-past-output", len);
                                         free(ref); free(inc);
                                         if (!inplace) AFREE(out, ooff);
                                         AFREE(in, ioff);
                                         done++;
                                 } else {
                                         /* streaming */
-                                        fprintf(fo, "GI %llu %u %llu\n", (unsigned long long) ivseed, aadlen, (unsigned long long) aadseed);
-                                        G->init[b](kd, cd, iv, aad, aadlen);
+                                        GUARD_OP("gcm init"); fprintf(fo, "GI %llu %u %llu\n", (unsigned long long) ivseed, aadlen, (unsigned long long) aadseed);
+                                        TCALL(G->init[b], A_(kd), A_(cd), A_(iv), A_(aad), aadlen); SCAN("gcm_init");
                                         show_ctx(cd);
                                         fputc('\n', fr);
                                         done++;
@@ -380,8 +404,8 @@ int main(int argc, char **argv)
                                                 xs_bytes(dseed, in, len);
                                                 while (total + len > cap) { cap *= 2; allin = realloc(allin, cap); allout = realloc(allout, cap); }
                                                 memcpy(allin + total, in, len);
-                                                fprintf(fo, "GU %c %u %llu\n", dec ? 'd' : 'e', len, (unsigned long long) dseed);
-                                                (dec ? G->udec[b] : G->uenc[b])(kd, cd, out, in, len);
+                                                GUARD_OP("gcm update"); fprintf(fo, "GU %c %u %llu\n", dec ? 'd' : 'e', len, (unsigned long long) dseed);
+                                                TCALL(dec ? (void *) G->udec[b] : (void *) G->uenc[b], A_(kd), A_(cd), A_(out), A_(in), len); SCAN("gcm_update");
                                                 memcpy(allout + total, out, len);
                                                 total += len;
                                                 fprintf(fr, "out=");
@@ -389,13 +413,13 @@ int main(int argc, char **argv)
                                                 fputc(' ', fr);
                                                 show_ctx(cd);
                                                 fputc('\n', fr);
-                                                if (!inplace && out[len] != 0xEE) monitor("C08-write-past-output", len);
+                                                if (!inplace && (guard_mode != 1 && out[len] != 0xEE)) monitor("C08-write-past-output", len);
                                                 if (!inplace) AFREE(out, ooff);
                                                 AFREE(in, ioff);
                                                 done++;
                                         }
-                                        fprintf(fo, "GF %d\n", taglen);
-                                        (dec ? G->fdec[b] : G->fenc[b])(kd, cd, tag, taglen);
+                                        GUARD_OP("gcm finalize"); fprintf(fo, "GF %d\n", taglen);
+                                        TCALL(dec ? (void *) G->fdec[b] : (void *) G->fenc[b], A_(kd), A_(cd), A_(tag), taglen); SCAN("gcm_finalize");
                                         fprintf(fr, "tag=");
                                         hex_out(fr, tag, taglen);
                                         fputc('\n', fr);
@@ -429,14 +453,14 @@ int main(int argc, char **argv)
                         xs_bytes(ds, in, len);
                         uint8_t *inc = malloc(len + 16), *ref = malloc(len + 16);
                         memcpy(inc, in, len);
-                        fprintf(fo, "X %c %d %llu %llu %llu %u %llu %d\n", dec ? 'd' : 'e', bits, (unsigned long long) k1s, (unsigned long long) k2s,
+                        GUARD_OP("xts"); fprintf(fo, "X %c %d %llu %llu %llu %u %llu %d\n", dec ? 'd' : 'e', bits, (unsigned long long) k1s, (unsigned long long) k2s,
                                 (unsigned long long) tws, len, (unsigned long long) ds, ex);
                         uint8_t *e1 = abuf(240, 0), *d1 = abuf(240, 0), *e2 = abuf(240, 0), *d2 = abuf(240, 0);
                         if (ex) {
                                 if (b) { _aes_keyexp_256_sse(k1, e1, d1); _aes_keyexp_256_sse(k2, e2, d2); }
                                 else { _aes_keyexp_128_sse(k1, e1, d1); _aes_keyexp_128_sse(k2, e2, d2); }
-                                X->f[b][dec][1](e2, dec ? d1 : e1, tw, len, in, out);
-                        } else X->f[b][dec][0](k2, k1, tw, len, in, out);
+                                sens_set_xts(k1, k2, n, tw, e1, d1, e2, d2, len); TCALL(X->f[b][dec][1], A_(e2), A_(dec ? d1 : e1), A_(tw), len, A_(in), A_(out)); SCAN("xts_expanded");
+                        } else { sens_set_xts(k1, k2, n, tw, NULL, NULL, NULL, NULL, len); TCALL(X->f[b][dec][0], A_(k2), A_(k1), A_(tw), len, A_(in), A_(out)); SCAN("xts_raw"); }
                         if (len < 16) {
                                 /* documented: nothing processed; output must be untouched */
                                 if (!inplace) { for (uint32_t i = 0; i < len; i++) if (out[i] != 0xEE) { monitor("C03-short-length-output-touched", len); break; } }
@@ -455,7 +479,7 @@ int main(int argc, char **argv)
                                 EVP_CipherUpdate(c, ref, &l, inc, (int) len);
                                 EVP_CIPHER_CTX_free(c);
                                 if (memcmp(ref, out, len)) monitor("C03-differs-from-openssl", len);
-                                if (!inplace && out[len] != 0xEE) monitor("C08-write-past-output", len);
+                                if (!inplace && (guard_mode != 1 && out[len] != 0xEE)) monitor("C08-write-past-output", len);
                         }
                         free(inc); free(ref);
                         AFREE(e1, 0); AFREE(d1, 0); AFREE(e2, 0); AFREE(d2, 0);
@@ -472,6 +496,7 @@ int main(int argc, char **argv)
                         int bits = 128 + 64 * b;
                         uint64_t ks = rng_u64(&R) | 1, ivs = rng_u64(&R) | 1, ds = rng_u64(&R) | 1;
                         uint32_t len = 16 + pick_len(&R, maxlen, 16);
+                        if (guard_mode && rng_below(&R, 6) == 0) len = 0; /* C08: zero-length call must touch nothing */
                         uint8_t key[32];
                         xs_bytes(ks, key, bits / 8);
                         uint8_t *ek = abuf(240, 0), *dk = abuf(240, 0), *iv = abuf(16, 0);
@@ -485,8 +510,8 @@ int main(int argc, char **argv)
                         memcpy(inc, in, len);
                         uint8_t ivc[16];
                         memcpy(ivc, iv, 16);
-                        fprintf(fo, "C %c %d %llu %llu %u %llu\n", dec ? 'd' : 'e', bits, (unsigned long long) ks, (unsigned long long) ivs, len, (unsigned long long) ds);
-                        (dec ? C->dec[b] : C->enc[b])(in, iv, dec ? dk : ek, out, len);
+                        GUARD_OP(len ? "cbc" : "cbc len=0"); fprintf(fo, "C %c %d %llu %llu %u %llu\n", dec ? 'd' : 'e', bits, (unsigned long long) ks, (unsigned long long) ivs, len, (unsigned long long) ds);
+                        sens_set_sched(key, bits / 8, ek, dk, 16 * (11 + 2 * b)); TCALL(dec ? (void *) C->dec[b] : (void *) C->enc[b], A_(in), A_(iv), A_(dec ? dk : ek), A_(out), len); SCAN("cbc");
                         fprintf(fr, "out=");
                         show_out(out, len);
                         fputc('\n', fr);
@@ -498,7 +523,7 @@ int main(int argc, char **argv)
                         EVP_CIPHER_CTX_free(c);
                         if (memcmp(ref, out, len)) monitor("C04-cbc-differs-from-openssl", len);
                         if (memcmp(iv, ivc, 16)) monitor("C08-iv-modified", len);
-                        if (!inplace && out[len] != 0xEE) monitor("C08-write-past-output", len);
+                        if (!inplace && (guard_mode != 1 && out[len] != 0xEE)) monitor("C08-write-past-output", len);
                         free(inc); free(ref);
                         if (!inplace) AFREE(out, oo);
                         AFREE(in, oi); AFREE(ek, 0); AFREE(dk, 0); AFREE(iv, 0);
@@ -517,19 +542,20 @@ int main(int argc, char **argv)
                         unsigned ok = rng_below(&R, 16);
                         uint8_t *key = abuf(32, ok), *ek = abuf(240, 0), *dk = abuf(240, 0);
                         xs_bytes(ks, key, bits / 8);
-                        fprintf(fo, "K %d %llu\n", bits, (unsigned long long) ks);
-                        K->f[b](key, ek, dk);
+                        GUARD_OP("keyexp"); fprintf(fo, "K %d %llu\n", bits, (unsigned long long) ks);
+                        TCALL(K->f[b], A_(key), A_(ek), A_(dk)); sens_set_sched(key, bits / 8, ek, dk, 16 * (nr + 1)); SCAN("keyexp");
                         fprintf(fr, "enc=");
                         show_out(ek, 16 * (nr + 1));
                         fprintf(fr, " dec=");
                         show_out(dk, 16 * (nr + 1));
                         fputc('\n', fr);
-                        if (ek[16 * (nr + 1)] != 0xEE || dk[16 * (nr + 1)] != 0xEE) monitor("C08-keyexp-writes-past-schedule", bits);
+                        if (guard_mode != 1 && (ek[16 * (nr + 1)] != 0xEE || dk[16 * (nr + 1)] != 0xEE)) monitor("C08-keyexp-writes-past-schedule", bits);
                         AFREE(key, ok); AFREE(ek, 0); AFREE(dk, 0);
                         done++;
                 }
         } else return 2;
-        fprintf(fr, "END ops=%ld monitor_fail=%ld\n", done, monitor_fail);
+        monitor_fail += sens_hits + guard_canary_bad;
+        fprintf(fr, "END ops=%ld monitor_fail=%ld tramp_calls=%ld sens_scans=%ld guard=%d\n", done, monitor_fail, tramp_calls, sens_scans, guard_mode);
         fclose(fo);
         fclose(fr);
         return monitor_fail ? 3 : 0;
